@@ -294,7 +294,7 @@ pub fn fam_shadow(_cfg: &FunCfg, sink: &mut FunSink) {
     for name in ["x", "a", "x0", "a0"] {
         for c in 0..5 {
             for d in 0..4 {
-                for form in 0..6 {
+                for form in 0..8 {
                     sink.offer(move || {
                         let nm = name;
                         let cs = match c {
@@ -317,7 +317,22 @@ pub fn fam_shadow(_cfg: &FunCfg, sink: &mut FunSink) {
                             2 => format!("{inner} + ({inner} * 100)"),
                             3 => format!("(new {{ ap({nm}) => {nm} + 1000 }}).ap[i64, i64]{inner}"),
                             4 => format!("(let {nm}: i64 = {cs}; Cons({ds}, l)).case[i64] {{ Nil => 0, Cons({nm}, t) => {nm} + sum(t) }}"),
-                            _ => format!("let r: i64 = {inner}; let {nm}: i64 = {inner}; r + ({nm} * 100)"),
+                            5 => format!("let r: i64 = {inner}; let {nm}: i64 = {inner}; r + ({nm} * 100)"),
+                            // sibling *clauses* of one case bind the name; in one of them a (branching)
+                            // term in scrutinee / receiver position is continued by a use of the name
+                            _ => {
+                                let scrut = match c {
+                                    0 => format!("(if n == 0 {{ Nil }} else {{ Cons(q, Nil) }}).case[i64] {{ Nil => {ds}, Cons(h, t) => h + ({ds}) }}"),
+                                    1 => format!("(l.case[i64] {{ Nil => Nil, Cons(h, t) => t }}).case[i64] {{ Nil => {ds}, Cons(h, t) => h + ({ds}) }}"),
+                                    2 => format!("(if n == 0 {{ new {{ ap(u) => u + {nm} }} }} else {{ new {{ ap(u) => u - {nm} }} }}).ap[i64, i64](({ds}) + q)"),
+                                    3 => format!("range(q).case[i64] {{ Nil => {ds}, Cons(h, t) => h + ({ds}) }}"),
+                                    _ => format!("(if {nm} == 0 {{ Nil }} else {{ Cons({nm}, Nil) }}).case[i64] {{ Nil => {ds}, Cons(h, t) => (h * 10) + ({ds}) }}"),
+                                };
+                                let simple = format!("T1({nm}) => {ds}");
+                                let complex = format!("T2({nm}, q) => {scrut}");
+                                let clauses = if form == 6 { format!("T0 => 0, {simple}, {complex}") } else { format!("{complex}, T0 => 0, {simple}") };
+                                format!("let r: i64 = (if n == 0 {{ T1(5) }} else {{ T2(n, 2) }}).case {{ {clauses} }}; let s: i64 = T2(1, n).case {{ {clauses} }}; (r * 1000) + (s + (T1(n).case {{ {clauses} }}))")
+                            }
                         };
                         let src = format!(
                             "{PRELUDE_TYPES}{PRELUDE_DEFS}def f(n: i64, l: List[i64]): i64 {{ {body} }}\ndef main(n: i64, m: i64): i64 {{ println_i64(f(n, Cons(m, Cons(3, Nil)))); println_i64(f(m, Nil)); 0 }}\n"
@@ -930,8 +945,11 @@ pub fn fam_byname(_cfg: &FunCfg, sink: &mut FunSink) {
         "(println_i64(106); mkf(n))",
     ];
     for (ci, carrier) in carriers.iter().enumerate() {
-        for binding in ["let", "arg"] {
+        for binding in ["let", "arg", "recv", "field"] {
             for uses in 0..3usize {
+                if (binding == "recv" || binding == "field") && uses != 1 {
+                    continue;
+                }
                 let carrier = *carrier;
                 sink.offer(move || {
                     let use_expr = |f: &str| match uses {
@@ -941,8 +959,14 @@ pub fn fam_byname(_cfg: &FunCfg, sink: &mut FunSink) {
                     };
                     let body = if binding == "let" {
                         format!("let f: Fun[i64, i64] = {carrier}; println_i64(7); println_i64({}); 3", use_expr("f"))
-                    } else {
+                    } else if binding == "arg" {
                         format!("println_i64(user(n, {carrier})); 3")
+                    } else if binding == "recv" {
+                        // the effectful codata term is itself the receiver of a destructor
+                        format!("println_i64(7); println_i64(({carrier}).ap[i64, i64](1)); 3")
+                    } else {
+                        // ... or a constructor argument
+                        format!("let l: List[Fun[i64, i64]] = Cons({carrier}, Nil); println_i64(7); println_i64(l.case[Fun[i64, i64]] {{ Nil => 0, Cons(g, t) => g.ap[i64, i64](1) }}); 3")
                     };
                     let src = format!(
                         "{PRELUDE_TYPES}{PRELUDE_DEFS}def mkf(d: i64): Fun[i64, i64] {{ new {{ ap(x) => x * d }} }}\ndef user(m: i64, g: Fun[i64, i64]): i64 {{ println_i64(8); {} }}\ndef main(n: i64): i64 {{ {body} }}\n",
